@@ -84,18 +84,19 @@ CLAIMED = {
         "Week/Month/Quarter/Year Period() returns (s,u) with s <= d <= u, s/u the first/last day, every date in [s,u] has the same period; "
         "Previous().Period() is the period of the same kind that ends the day before s; Hash() never panics and is equal exactly for dates of the same period "
         "(all valid dates, ISO year -1 included); NewPeriodFromPatternString returns Ok (since, until) iff the string is YYYY / YYYY-MM / YYYY-Qq / YYYY-Ww[w] "
-        "naming an existing representable period, with exactly its bounds, and Err otherwise. Where the Go code panics (first/last week, Previous() in year 0000, "
-        "patterns 9999-W52..W99) the model says Crash, the guards exclude exactly those dates/strings, the panic itself is proved (C15_period_edge_crash, "
-        "C15_previous_edge_crash, C15_pattern_crash_iff) and the unguarded statements are refuted by witnesses. Tied to the code by a complete correspondence: "
+        "naming an existing representable period, with exactly its bounds, Err otherwise, and never panics (C15_pattern_total; 9999-W52..W99 are rejected "
+        "since fix 9e99f6b). Where the Go code panics (first/last week, Previous() in year 0000) the model says Crash, the guards exclude exactly those "
+        "dates, the panic itself is proved (C15_period_edge_crash, C15_previous_edge_crash) and the unguarded statements are refuted by witnesses. Tied to the code by a complete correspondence: "
         "thorough tier = all 3,652,425 dates (weekday, ISO week, quarter, PlusDays x6, 4 Period(), 4 Previous().Period(), 5 Hash()) and every string matching "
         "one of the four pattern regexps for all 10,000 years (2.21 M strings) plus malformed/mutated strings and 1 M random PlusDays; quick tier = 60 years. "
         "An independent Python oracle (datetime / isocalendar / fromisocalendar, Gregorian rule for year 0, stateful bucket check for the hashes) is evaluated "
         "on the implementation's output.",
    design="§4 C15", technique="Coq proof (lia over div/mod closed forms; one kernel-VM era sweep lifted by a 400-year shift lemma; fuel-bounded loop models) over hand model; "
                              "extracted-model-vs-Go differential correspondence, exhaustive over the whole finite domain in the thorough tier",
-   note=TB + "Axioms: none (Closed under the global context, 22 theorems; 3 of them are *_refuted witnesses of the panics). Known findings printed, not suppressed beyond their exact inputs: "
-             "K4 (Week.Period() panics for 0000-01-01/02 and 9999-12-27..31; Previous() panics where the previous week/month/quarter/year would lie before 0000-01-01) and "
-             "F8 (NewPeriodFromPatternString panics on 9999-W52 .. 9999-W99, reachable via --period). Quarter() uses float64 ceil in Go and integer division in the model: covered by the "
+   note=TB + "Axioms: none (Closed under the global context, 22 theorems; 2 of them are *_refuted witnesses of the panics). Known finding printed, not suppressed beyond its exact inputs: "
+             "K4 (Week.Period() panics for 0000-01-01/02 and 9999-12-27..31; Previous() panics where the previous week/month/quarter/year would lie before 0000-01-01). "
+             "F8 (NewPeriodFromPatternString panicked on 9999-W52 .. 9999-W99, reachable via --period) is fixed in /repo (9e99f6b); the model mirrors the fixed code, "
+             "its 48 strings run on every check from corpus/C15/patterns.txt and nothing suppresses a crash on them. Quarter() uses float64 ceil in Go and integer division in the model: covered by the "
              "exhaustive correspondence, not by proof."),
  "C08": dict(
    text="Theorems in coq/Properties/C08.v, for ALL byte strings: lines_lossless, blocks_lossless, no_blocks_iff_all_blank, line_numbers_consecutive, block_shape (+ located/wellformed lemmas), by list induction over the executable model of txt.ParseBlock / mapParse; tied to the code by the `blocks` correspondence on conforming documents and byte streams plus an independent Python oracle (re-concatenation, numbering, one significant run per block) and the no-op reconcile run.",
